@@ -12,7 +12,7 @@ def Inv (s : St) : Prop :=
   s.nstate ≠ .disconnecting ∧
   (∀ d, s.cur = some d → d < s.disps.length)
 
-theorem inv_init (r p : Bool) : Inv { reconnectOpt := r, passive := p } := by
+theorem inv_init (r p c : Bool) : Inv { reconnectOpt := r, passive := p, control := c } := by
   simp [Inv]
 
 theorem Inv.frame {s t : St} (h : Inv s) (h1 : t.nstate = s.nstate) (h2 : t.connected = s.connected)
@@ -87,6 +87,15 @@ theorem destroy_eq {s : St} (h : Inv s) (hn : s.nstate ≠ .disconnected) :
   obtain ⟨d, dp, a, b, c, e⟩ := h.cur_open hn
   refine ⟨d, dp, a, b, c, e, ?_⟩
   simp [destroyConnection, hn, a, b, c, onDisconnected]
+
+theorem destroy_cases {s : St} (h : Inv s) :
+    (s.nstate = .disconnected ∧ destroyConnection s = (s, [])) ∨
+    (∃ d dp, s.cur = some d ∧ s.disps[d]? = some dp ∧ dp.open_ = true ∧
+      (s.nstate = .connecting ∨ s.nstate = .connected) ∧
+      destroyConnection s = ({ s with nstate := .disconnected, connected := false, pendingDown := s.pendingDown + 1, disps := setDisp s.disps d { open_ := false, established := false } }, [.closed d, .downNear])) := by
+  by_cases hn : s.nstate = .disconnected
+  · left; exact ⟨hn, by simp [destroyConnection, hn]⟩
+  · right; exact destroy_eq h hn
 
 theorem disconnectEvent_cases {s : St} (h : Inv s) :
     (s.nstate = .disconnected ∧ disconnectEvent s = ({ s with pingThread := false, outstanding := 0 }, [])) ∨
@@ -183,23 +192,52 @@ def Quiet (o : Out) : Prop := o = .downAll ∨ ∃ i, o = .created i
 theorem createConnection_out {s : St} (h : Inv s) : ∀ o ∈ (createConnection s).2, Quiet o := by
   rcases createConnection_cases h with ⟨_, e⟩ | ⟨_, _, e⟩ <;> rw [e] <;> simp [Quiet]
 
+/-- the control layer's part of one queued 'disconnected': its own reboot -/
+def rebootPart (s1 : St) : St × List Out :=
+  if s1.rebootFlag then createConnection { s1 with rebootFlag := false, passive := false } else (s1, [])
+
+theorem rebootPart_props {s : St} (h : Inv s) :
+    Inv (rebootPart s).1 ∧ (rebootPart s).1.connected = s.connected ∧ ∀ o ∈ (rebootPart s).2, Quiet o := by
+  unfold rebootPart
+  split
+  · have h' : Inv { s with rebootFlag := false, passive := false } := h.frame rfl rfl rfl rfl
+    exact ⟨createConnection_inv h', createConnection_connected h', createConnection_out h'⟩
+  · exact ⟨h, rfl, by simp⟩
+
+theorem loopOne_eq {s : St} (hp : s.pendingDown ≠ 0) :
+    loopOne s =
+      (if (rebootPart { s with pendingDown := s.pendingDown - 1, noiseFresh := true, pingThread := false, outstanding := 0 }).1.reconnectFlag then
+        ((createConnection { (rebootPart { s with pendingDown := s.pendingDown - 1, noiseFresh := true, pingThread := false, outstanding := 0 }).1 with reconnectFlag := false }).1,
+         .downAll :: ((rebootPart { s with pendingDown := s.pendingDown - 1, noiseFresh := true, pingThread := false, outstanding := 0 }).2 ++
+           (createConnection { (rebootPart { s with pendingDown := s.pendingDown - 1, noiseFresh := true, pingThread := false, outstanding := 0 }).1 with reconnectFlag := false }).2))
+      else ((rebootPart { s with pendingDown := s.pendingDown - 1, noiseFresh := true, pingThread := false, outstanding := 0 }).1,
+         .downAll :: (rebootPart { s with pendingDown := s.pendingDown - 1, noiseFresh := true, pingThread := false, outstanding := 0 }).2)) := by
+  simp only [loopOne, hp, if_false, rebootPart]
+
 theorem loopOne_props {s : St} (h : Inv s) :
     Inv (loopOne s).1 ∧ (loopOne s).1.connected = s.connected ∧ ∀ o ∈ (loopOne s).2, Quiet o := by
   by_cases hp : s.pendingDown = 0
   · simp [loopOne, hp, h]
-  · cases hf : s.reconnectFlag with
-    | false =>
-      simp only [loopOne, hp, hf, if_false]
-      exact ⟨h.frame rfl rfl rfl rfl, rfl, by simp [Quiet]⟩
-    | true =>
-      simp only [loopOne, hp, hf, if_false, if_true]
-      have h' : Inv { s with pendingDown := s.pendingDown - 1, noiseFresh := true, pingThread := false,
-                             outstanding := 0, reconnectFlag := false } := h.frame rfl rfl rfl rfl
-      refine ⟨createConnection_inv h', createConnection_connected h', ?_⟩
+  · rw [loopOne_eq hp]
+    have h1 : Inv { s with pendingDown := s.pendingDown - 1, noiseFresh := true, pingThread := false, outstanding := 0 } :=
+      h.frame rfl rfl rfl rfl
+    obtain ⟨a, b, c⟩ := rebootPart_props h1
+    generalize rebootPart { s with pendingDown := s.pendingDown - 1, noiseFresh := true, pingThread := false, outstanding := 0 } = rb at a b c
+    have b : rb.1.connected = s.connected := b
+    split
+    · have h' : Inv { rb.1 with reconnectFlag := false } := a.frame rfl rfl rfl rfl
+      refine ⟨createConnection_inv h', (createConnection_connected h').trans b, ?_⟩
       intro o ho
       rcases List.mem_cons.1 ho with e | e
       · exact Or.inl e
-      · exact createConnection_out h' o e
+      · rcases List.mem_append.1 e with e | e
+        · exact c o e
+        · exact createConnection_out h' o e
+    · refine ⟨a, b, ?_⟩
+      intro o ho
+      rcases List.mem_cons.1 ho with e | e
+      · exact Or.inl e
+      · exact c o e
 
 theorem drain_props (n : Nat) : ∀ {s : St}, Inv s →
     Inv (drain s n).1 ∧ (drain s n).1.connected = s.connected ∧ ∀ o ∈ (drain s n).2, Quiet o := by
@@ -331,6 +369,14 @@ theorem inv_step (s : St) (h : Inv s) (i : In) : Inv (step s i).1 := by
     split
     · exact h.frame rfl rfl rfl rfl
     · exact h
+  | keysFlushed =>
+    simp only [step]
+    split
+    · have h' : Inv { s with rebootFlag := true } := h.frame rfl rfl rfl rfl
+      rcases destroy_cases h' with ⟨_, e⟩ | ⟨d, dp, a, b, c, _, e⟩
+      · rw [e]; exact h'
+      · rw [e]; exact h.close a rfl rfl rfl rfl
+    · exact h
   | loop => exact (drain_props _ h).1
   | appSend =>
     simp only [step]
@@ -400,6 +446,14 @@ theorem ann_disconnectEvent (s s' : St) (h' : Inv s') (hn : s'.nstate = s.nstate
   · rw [e]
     exact ann_closed s _ pre d hpre (hn ▸ n) rfl rfl
 
+theorem ann_destroy (s s' : St) (h' : Inv s') (hn : s'.nstate = s.nstate) (hc : s'.connected = s.connected) :
+    Ann s (destroyConnection s') := by
+  rcases destroy_cases h' with ⟨_, e⟩ | ⟨d, dp, a, b, c, n, e⟩
+  · rw [e]
+    exact ann_silent s _ hc (by simp)
+  · rw [e]
+    exact ann_closed s _ [] d (by simp) (hn ▸ n) rfl rfl
+
 /-- 'connected' is announced exactly when the layer goes from not-connected to connected, at most once per
     event, together with exactly one login attempt; 'disconnected' is announced at most once per event, only
     when a connection was up or being established, and always when an up connection goes down. -/
@@ -454,6 +508,11 @@ theorem announcements (s : St) (h : Inv s) (i : In) :
   | pong fresh =>
     simp only [step]
     split <;> exact ann_silent s _ rfl (by simp)
+  | keysFlushed =>
+    simp only [step]
+    split
+    · exact ann_destroy s { s with rebootFlag := true } (h.frame rfl rfl rfl rfl) rfl rfl
+    · exact ann_silent s _ rfl (by simp)
   | loop =>
     obtain ⟨_, b, c⟩ := drain_props s.pendingDown h
     exact ann_silent s _ b (fun o ho => (c o ho).silent)
@@ -521,6 +580,12 @@ theorem no_write_when_down (s : St) (h : Inv s) (i : In) (d : Nat) (hw : Out.wri
   | pong fresh =>
     simp only [step] at hw
     split at hw <;> simp at hw
+  | keysFlushed =>
+    simp only [step] at hw
+    split at hw
+    · have h' : Inv { s with rebootFlag := true } := h.frame rfl rfl rfl rfl
+      rcases destroy_cases h' with ⟨_, e⟩ | ⟨d', dp, _, _, _, _, e⟩ <;> rw [e] at hw <;> simp at hw
+    · simp at hw
   | loop => exact absurd rfl (((drain_props s.pendingDown h).2.2 _ hw).not_written d)
   | appSend =>
     simp only [step] at hw
@@ -567,7 +632,7 @@ theorem stream_error_closes (s : St) (h : Inv s) (hc : s.nstate = .connected) (k
 /-- … and when the stack's loop then delivers the deferred 'disconnected', exactly one reconnect is started
     iff the option is on and the error was not a conflict; the transport state is fresh again -/
 theorem reconnect_policy (s : St) (h : Inv s) (hc : s.nstate = .connected) (k : ErrKind) (hr : s.unknownErrRaises = false)
-    (hp : s.pendingDown = 0) (hf : s.reconnectFlag = false) :
+    (hp : s.pendingDown = 0) (hf : s.reconnectFlag = false) (hb : s.rebootFlag = false) :
     let s2 := (step (step s (.streamError k)).1 .loop)
     s2.2 = (if s.reconnectOpt && k != .conflict then [.downAll, .created s.disps.length] else [.downAll]) ∧
     s2.1.noiseFresh = true ∧ s2.1.pingThread = false := by
@@ -585,7 +650,7 @@ theorem reconnect_policy (s : St) (h : Inv s) (hc : s.nstate = .connected) (k : 
     intro s2
     simp only [s2, hs]
     cases k <;> cases hro : s.reconnectOpt <;>
-      simp [step, drain, loopOne, hp, hf, createConnection, setDisp]
+      simp [step, drain, loopOne, hp, hf, hb, createConnection, setDisp]
 
 /-- keep-alive: a tick with every earlier ping answered sends a ping and closes nothing … -/
 theorem ping_answered_never_closes (s : St) (h : Inv s) (ht : s.pingThread = true) (ho : s.outstanding = 0) :
@@ -657,13 +722,18 @@ theorem disconnectEvent_unknownErrRaises (s : St) :
 
 theorem loopOne_unknownErrRaises (s : St) :
     (loopOne s).1.unknownErrRaises = s.unknownErrRaises := by
-  unfold loopOne
-  split
-  · rfl
-  · dsimp only
+  by_cases hp : s.pendingDown = 0
+  · simp [loopOne, hp]
+  · rw [loopOne_eq hp]
+    have hrb : ∀ t : St, (rebootPart t).1.unknownErrRaises = t.unknownErrRaises := by
+      intro t
+      unfold rebootPart
+      split
+      · exact createConnection_unknownErrRaises _
+      · rfl
     split
-    · exact createConnection_unknownErrRaises _
-    · rfl
+    · exact (createConnection_unknownErrRaises _).trans (hrb _)
+    · exact hrb _
 
 theorem drain_unknownErrRaises (n : Nat) : ∀ (s : St),
     (drain s n).1.unknownErrRaises = s.unknownErrRaises := by
@@ -708,6 +778,11 @@ theorem step_unknownErrRaises (s : St) (i : In) : (step s i).1.unknownErrRaises 
   | pong fresh =>
     simp only [step]
     split <;> rfl
+  | keysFlushed =>
+    simp only [step]
+    split
+    · exact destroyConnection_unknownErrRaises _
+    · rfl
   | loop => exact drain_unknownErrRaises s.pendingDown s
   | appSend =>
     simp only [step]
@@ -719,5 +794,263 @@ theorem run_unknownErrRaises (s : St) (is : List In) : (run s is).1.unknownErrRa
   induction is generalizing s with
   | nil => rfl
   | cons i is ih => exact (ih _).trans (step_unknownErrRaises s i)
+
+/-! The control layer: `control` is a configuration field; `rebootFlag` is set only by `.keysFlushed` (with the control
+    layer) and cleared by the loop. -/
+
+/-- `t` has the control configuration and the reboot flag of `s`, and no fewer queued 'disconnected' continuations -/
+def Keep (s t : St) : Prop :=
+  t.control = s.control ∧ t.rebootFlag = s.rebootFlag ∧ s.pendingDown ≤ t.pendingDown
+
+theorem Keep.refl (s : St) : Keep s s := ⟨rfl, rfl, Nat.le_refl _⟩
+
+theorem Keep.trans {s t u : St} (h1 : Keep s t) (h2 : Keep t u) : Keep s u :=
+  ⟨h2.1.trans h1.1, h2.2.1.trans h1.2.1, Nat.le_trans h1.2.2 h2.2.2⟩
+
+theorem createConnection_keep (s : St) : Keep s (createConnection s).1 := by
+  unfold createConnection
+  split
+  · exact Keep.refl s
+  · exact ⟨rfl, rfl, Nat.le_refl _⟩
+
+theorem onDisconnected_keep (s : St) : Keep s (onDisconnected s).1 := by
+  unfold onDisconnected
+  split
+  · exact ⟨rfl, rfl, Nat.le_succ _⟩
+  · exact Keep.refl s
+
+theorem handleClose_keep (s : St) (d : Nat) : Keep s (handleClose s d).1 := by
+  unfold handleClose
+  split
+  · exact Keep.refl s
+  · split
+    · exact Keep.refl s
+    · exact Keep.trans (s := s) (t := { s with disps := setDisp s.disps d { open_ := false, established := false } })
+        ⟨rfl, rfl, Nat.le_refl _⟩ (onDisconnected_keep _)
+
+theorem destroyConnection_keep (s : St) : Keep s (destroyConnection s).1 := by
+  unfold destroyConnection
+  split
+  · exact Keep.refl s
+  · split
+    · exact Keep.refl s
+    · dsimp only
+      split
+      · exact ⟨rfl, rfl, Nat.le_refl _⟩
+      · refine Keep.trans ?_ (onDisconnected_keep _)
+        exact ⟨rfl, rfl, Nat.le_refl _⟩
+
+theorem disconnectEvent_keep (s : St) : Keep s (disconnectEvent s).1 := by
+  unfold disconnectEvent
+  exact Keep.trans (s := s) (t := { s with pingThread := false, outstanding := 0 }) ⟨rfl, rfl, Nat.le_refl _⟩
+    (destroyConnection_keep _)
+
+/-- every event other than `.keysFlushed` and `.loop` keeps the control configuration, the reboot flag and the queue -/
+theorem step_keep (s : St) (i : In) (hk : i ≠ .keysFlushed) (hl : i ≠ .loop) : Keep s (step s i).1 := by
+  cases i with
+  | connectReq => exact createConnection_keep { s with }
+  | connectEvt =>
+    simp only [step]
+    split
+    · exact createConnection_keep s
+    · exact Keep.refl s
+  | dConnected d =>
+    simp only [step]
+    split
+    · exact Keep.refl s
+    · split
+      · exact Keep.refl s
+      · exact ⟨rfl, rfl, Nat.le_refl _⟩
+  | dClosed d => exact handleClose_keep s d
+  | disconnectReq => exact disconnectEvent_keep s
+  | success => exact ⟨rfl, rfl, Nat.le_refl _⟩
+  | failure => exact disconnectEvent_keep s
+  | streamError k =>
+    simp only [step]
+    split
+    · exact Keep.refl s
+    · exact Keep.trans (s := s)
+        (t := { s with reconnectFlag := if s.reconnectOpt && k ≠ .conflict then true else s.reconnectFlag })
+        ⟨rfl, rfl, Nat.le_refl _⟩ (disconnectEvent_keep _)
+  | pingTick =>
+    simp only [step]
+    split
+    · exact Keep.refl s
+    · split
+      · exact Keep.trans (s := s) (t := { s with outstanding := s.outstanding + 1 })
+          ⟨rfl, rfl, Nat.le_refl _⟩ (disconnectEvent_keep _)
+      · split
+        · split <;> exact ⟨rfl, rfl, Nat.le_refl _⟩
+        · exact ⟨rfl, rfl, Nat.le_refl _⟩
+  | pong fresh =>
+    simp only [step]
+    split
+    · exact ⟨rfl, rfl, Nat.le_refl _⟩
+    · exact Keep.refl s
+  | keysFlushed => exact absurd rfl hk
+  | loop => exact absurd rfl hl
+  | appSend =>
+    simp only [step]
+    split
+    · split <;> exact Keep.refl s
+    · exact Keep.refl s
+
+theorem rebootPart_flag (s : St) : (rebootPart s).1.control = s.control ∧ (rebootPart s).1.rebootFlag = false := by
+  unfold rebootPart
+  split
+  · have := createConnection_keep { s with rebootFlag := false, passive := false }
+    exact ⟨this.1, this.2.1⟩
+  · rename_i hb
+    exact ⟨rfl, by simpa using hb⟩
+
+/-- one queued 'disconnected' consumed: the control configuration stays and the reboot flag is cleared -/
+theorem loopOne_flag {s : St} (hp : s.pendingDown ≠ 0) :
+    (loopOne s).1.control = s.control ∧ (loopOne s).1.rebootFlag = false := by
+  rw [loopOne_eq hp]
+  obtain ⟨a, b⟩ := rebootPart_flag
+    { s with pendingDown := s.pendingDown - 1, noiseFresh := true, pingThread := false, outstanding := 0 }
+  generalize rebootPart { s with pendingDown := s.pendingDown - 1, noiseFresh := true, pingThread := false, outstanding := 0 } = rb at a b
+  have a : rb.1.control = s.control := a
+  split
+  · have := createConnection_keep { rb.1 with reconnectFlag := false }
+    exact ⟨this.1.trans a, this.2.1.trans b⟩
+  · exact ⟨a, b⟩
+
+/-- the loop never sets the reboot flag and never changes the control configuration -/
+theorem loopOne_noset (s : St) :
+    (loopOne s).1.control = s.control ∧ (s.rebootFlag = false → (loopOne s).1.rebootFlag = false) := by
+  by_cases hp : s.pendingDown = 0
+  · simp [loopOne, hp]
+  · exact ⟨(loopOne_flag hp).1, fun _ => (loopOne_flag hp).2⟩
+
+theorem drain_noset (n : Nat) : ∀ (s : St),
+    (drain s n).1.control = s.control ∧ (s.rebootFlag = false → (drain s n).1.rebootFlag = false) := by
+  induction n with
+  | zero => intro s; exact ⟨rfl, id⟩
+  | succ n ih =>
+    intro s
+    simp only [drain]
+    obtain ⟨a, b⟩ := loopOne_noset s
+    obtain ⟨a', b'⟩ := ih (loopOne s).1
+    exact ⟨a'.trans a, fun h => b' (b h)⟩
+
+/-- `control` is a configuration field: no transition changes it -/
+theorem step_control (s : St) (i : In) : (step s i).1.control = s.control := by
+  by_cases hk : i = .keysFlushed
+  · subst hk
+    simp only [step]
+    split
+    · exact (destroyConnection_keep { s with rebootFlag := true }).1
+    · rfl
+  · by_cases hl : i = .loop
+    · subst hl
+      exact (drain_noset s.pendingDown s).1
+    · exact (step_keep s i hk hl).1
+
+theorem run_control_eq (s : St) (is : List In) : (run s is).1.control = s.control := by
+  induction is generalizing s with
+  | nil => rfl
+  | cons i is ih => exact (ih _).trans (step_control s i)
+
+theorem run_control (s0 : St) (is : List In) (h : s0.control = true) : (run s0 is).1.control = true :=
+  (run_control_eq s0 is).trans h
+
+/-- without the control layer no transition sets the reboot flag -/
+theorem step_no_control (s : St) (i : In) (hc : s.control = false) (hb : s.rebootFlag = false) :
+    (step s i).1.rebootFlag = false := by
+  by_cases hk : i = .keysFlushed
+  · subst hk
+    simp [step, hc, hb]
+  · by_cases hl : i = .loop
+    · subst hl
+      exact (drain_noset s.pendingDown s).2 hb
+    · exact (step_keep s i hk hl).2.1.trans hb
+
+theorem run_no_control (s : St) (is : List In) (hc : s.control = false) (hb : s.rebootFlag = false) :
+    (run s is).1.rebootFlag = false := by
+  induction is generalizing s with
+  | nil => exact hb
+  | cons i is ih => exact ih _ ((step_control s i).trans hc) (step_no_control s i hc hb)
+
+theorem no_control_no_reboot (r p : Bool) (is : List In) :
+    (run { reconnectOpt := r, passive := p, control := false } is).1.rebootFlag = false :=
+  run_no_control _ is rfl rfl
+
+/-- a set reboot flag has its deferred 'disconnected' still queued -/
+def Pend (s : St) : Prop := s.rebootFlag = true → 1 ≤ s.pendingDown
+
+/-- a run of the loop clears the reboot flag -/
+theorem loop_clears (s : St) (hj : Pend s) : (step s .loop).1.rebootFlag = false := by
+  show (drain s s.pendingDown).1.rebootFlag = false
+  cases hpd : s.pendingDown with
+  | zero =>
+    show s.rebootFlag = false
+    cases hb : s.rebootFlag with
+    | false => rfl
+    | true => have := hj hb; omega
+  | succ n =>
+    simp only [drain]
+    have hp : s.pendingDown ≠ 0 := by omega
+    exact (drain_noset n _).2 (loopOne_flag hp).2
+
+theorem pend_step (s : St) (hinv : Inv s) (i : In) (ha : Allowed s i = true) (hj : Pend s) : Pend (step s i).1 := by
+  by_cases hk : i = .keysFlushed
+  · subst hk
+    simp only [Allowed, Bool.and_eq_true, beq_iff_eq] at ha
+    obtain ⟨⟨hc, hctl⟩, _⟩ := ha
+    have h' : Inv { s with rebootFlag := true } := hinv.frame rfl rfl rfl rfl
+    have hs : step s .keysFlushed = destroyConnection { s with rebootFlag := true } := by simp [step, hctl]
+    rcases destroy_cases h' with ⟨e, _⟩ | ⟨d, dp, _, _, _, _, e⟩
+    · have e : s.nstate = .disconnected := e
+      rw [hc] at e; cases e
+    · rw [hs, e]
+      intro _
+      exact Nat.le_add_left 1 _
+  · by_cases hl : i = .loop
+    · subst hl
+      intro hb
+      rw [loop_clears s hj] at hb; cases hb
+    · obtain ⟨_, b, c⟩ := step_keep s i hk hl
+      intro hb
+      rw [b] at hb
+      exact Nat.le_trans (hj hb) c
+
+theorem pend_run (s : St) (hinv : Inv s) (is : List In) (ha : AllowedRun s is = true) (hj : Pend s) :
+    Pend (run s is).1 := by
+  induction is generalizing s with
+  | nil => exact hj
+  | cons i is ih =>
+    simp only [AllowedRun, Bool.and_eq_true] at ha
+    exact ih _ (inv_step s hinv i) ha.2 (pend_step s hinv i ha.1 hj)
+
+/-- in every allowed history a set reboot flag has its deferred 'disconnected' still queued, and the next run of the loop
+    clears it -/
+theorem reboot_flag_transient (r p c : Bool) (is : List In)
+    (ha : AllowedRun { reconnectOpt := r, passive := p, control := c } is = true) :
+    let s := (run { reconnectOpt := r, passive := p, control := c } is).1
+    (s.rebootFlag = true → 1 ≤ s.pendingDown) ∧ (step s .loop).1.rebootFlag = false := by
+  intro s
+  have hj : Pend s := pend_run _ (inv_init r p c) is ha (by intro h; cases h)
+  exact ⟨hj, loop_clears s hj⟩
+
+/-- the control layer's reboot: the confirmed key upload closes the connection, and when the loop delivers the deferred
+    'disconnected' exactly one new connection is started, non-passive, with the flag cleared -/
+theorem control_reboot (s : St) (hinv : Inv s) (hctl : s.control = true) (hc : s.nstate = .connected)
+    (hp : s.pendingDown = 0) (hf : s.reconnectFlag = false) (hb : s.rebootFlag = false) :
+    let o1 := step s .keysFlushed
+    let o2 := step o1.1 .loop
+    (∃ d, s.cur = some d ∧ o1.2 = [.closed d, .downNear]) ∧ o2.2 = [.downAll, .created s.disps.length] ∧
+    o2.1.rebootFlag = false ∧ o2.1.passive = false ∧ o2.1.nstate = .connecting := by
+  have _ := hb
+  have h' : Inv { s with rebootFlag := true } := hinv.frame rfl rfl rfl rfl
+  have hn : ({ s with rebootFlag := true } : St).nstate ≠ .disconnected := by
+    show s.nstate ≠ .disconnected
+    rw [hc]; intro x; cases x
+  obtain ⟨d, dp, a, _, _, _, e⟩ := destroy_eq h' hn
+  have hs : step s .keysFlushed = destroyConnection { s with rebootFlag := true } := by simp [step, hctl]
+  intro o1 o2
+  simp only [o2, o1, hs, e]
+  refine ⟨⟨d, a, rfl⟩, ?_⟩
+  simp [step, drain, loopOne, hp, hf, createConnection, setDisp]
 
 end Yow.Life
